@@ -23,9 +23,36 @@ func init() {
 			{"C04.codec-agree", "index header/table written and read as the same field sequence; sizes and tail marker agree", 6, c04Codec},
 			{"C04.rejections", "IndexFromReader rejects a wrong digest flag and any chunk larger than the maximum", 3, c04Rejections},
 			{"C04.max-size-boundary", "a chunk is rejected iff its size exceeds the declared maximum (partition point of the comparison)", 1, func(c *Ctx) {
-				if fn := c.mustFn("IndexFromReader"); fn != nil {
-					c.boundaryRule("IndexFromReader", withClosures(fn), []boundarySpec{{"max-size", map[string]int{"FormatIndex.ChunkSizeMax": 1, "[i]IndexChunk.Size": -1}, -1, 1, "reject iff Size > ChunkSizeMax; a chunk of exactly the maximum is legal"}})
+				fn := c.mustFn("IndexFromReader")
+				if fn == nil {
+					return
 				}
+				// D = ChunkSizeMax - size, where size is the stored Size field or the difference
+				// "this end offset - previous end offset" it was computed from
+				match := func(atoms map[string]int) int {
+					sign := atoms["FormatIndex.ChunkSizeMax"]
+					if sign != 1 && sign != -1 {
+						return 0
+					}
+					rest := map[string]int{}
+					for a, n := range atoms {
+						if a != "FormatIndex.ChunkSizeMax" {
+							rest[a] = n * sign // normalised: rest should be -size
+						}
+					}
+					if len(rest) == 1 && rest["[i]IndexChunk.Size"] == -1 {
+						return sign
+					}
+					if len(rest) == 2 && rest["[i]FormatTableItem.Offset"] == -1 {
+						for a, n := range rest {
+							if a != "[i]FormatTableItem.Offset" && strings.HasPrefix(a, "phi(") && n == 1 {
+								return sign
+							}
+						}
+					}
+					return 0
+				}
+				c.boundaryRuleFn("IndexFromReader", "max-size", fnsDeep(fn), match, -1, 1, "reject iff Size > ChunkSizeMax; a chunk of exactly the maximum is legal")
 			}},
 			{"C04.offsets", "start/size <-> cumulative offsets are inverse linear maps", 4, c04Offsets},
 			{"C04.upload-body-fresh", "an index upload that is retried sends the whole index again", 1, func(c *Ctx) {
